@@ -43,6 +43,7 @@ MIN_COUNTERS = {
     "taint_runs": {"quick": 400, "thorough": 8000},
     "faults_fired": {"quick": 40, "thorough": 400},
     "control_canary_fired": {"quick": 5, "thorough": 5},
+    "record_vs_offline_compared": {"quick": 100, "thorough": 100},
     "volume_record_chars": {"quick": 1000000, "thorough": 1000000},
     "type_print_runs": {"quick": 200, "thorough": 200},
     "type_print_recorded": {"quick": 150, "thorough": 150},
@@ -53,13 +54,17 @@ MIN_COUNTERS = {
 UNIT_TIMEOUT = 150
 MARK = "VYTAINT"
 
+# one canary file per worker process: concurrent runs (selftest jobs, quick next to thorough) must not
+# see each other's canaries
+CANARY_FILE = os.path.join("/tmp", f"VYTAINT_canary_{os.getpid()}")
+
 PAYLOADS = [
     "VYTAINT(1)",
     "[VYTAINT(2)]",
     "1+VYTAINT(3)",
     "(lambda:VYTAINT(4))()",
     "__import__('os').system('echo VYTAINT')",
-    "open('/tmp/VYTAINT_canary','w')",
+    "open(%r,'w')" % CANARY_FILE,
     "__import__('subprocess').Popen(['echo','VYTAINT'])",
     "VYTAINT(5) or 7",
     "(VYTAINT(6),)",
@@ -203,7 +208,7 @@ def run_online(text, inputs, flags, fault=None, online=True, timeout=10):
             STATE["fault"] = {"code": fn.__code__, "k": fault["k"], "n": 0, "name": fault["name"]}
             sys.monitoring.set_local_events(FAULT_TOOL, fn.__code__, sys.monitoring.events.PY_START)
     fired0 = STATE["fault_fired"]
-    for p in ("/tmp/VYTAINT_canary",):
+    for p in (CANARY_FILE,):
         try:
             os.unlink(p)
         except OSError:
@@ -223,7 +228,12 @@ def run_online(text, inputs, flags, fault=None, online=True, timeout=10):
     got["canary"] = list(STATE["canary"])
     got["transpiled"] = STATE["transpiled"]
     got["fault_fired"] = STATE["fault_fired"] - fired0
-    got["canary_file"] = os.path.exists("/tmp/VYTAINT_canary")
+    got["canary_file"] = os.path.exists(CANARY_FILE)
+    if got["canary_file"]:
+        try:
+            os.unlink(CANARY_FILE)
+        except OSError:
+            pass
     return got
 
 
@@ -292,7 +302,7 @@ VOLUME = _volume_cases()
 # values of every kind the interpreter can print (exact and inexact numbers, strings, nested / lazy lists,
 # functions) x every printing path: nothing may reach the host, something must reach the record
 VALUE_SNIPPETS = ["5", "1 3/", "2√", "ki", "ke", "kg", "2√1 3/\"", "`str`", "¤", "⟨⟩", "⟨1|`a`|⟨2√⟩⟩", "3ɾ", "3ɾƛ2√;", "3ɾ2√+",
-                  "λ1;", "⟨λ2;|3⟩", "1u/", "2 0.5e", "5∆s", "3∆L", "1°2", "5N√", "kn", "3ɾ:Z", "Þ∞3Ẏ", "5 7ḋ", "`a`3*", "10 3%"]
+                  "λ1;", "⟨λ2;|3⟩", "⟨λ`x`,2;⟩", "⟨3ɾƛ…;|4⟩", "3ɾƛ…;w", "⟨λ`y`₴5;|⟨λ7,8;⟩⟩", "λ`z`,9;", "3ɾƛ`p`₴;", "1u/", "2 0.5e", "5∆s", "3∆L", "1°2", "5N√", "kn", "3ɾ:Z", "Þ∞3Ẏ", "5 7ḋ", "`a`3*", "10 3%"]
 PRINTERS = [(",", ""), ("₴", "O"), ("…_", "O"), ("¨,", "O"), ("¨…_", "O"), ("", ""), ("", "j"), ("", "W"), ("", "s"), ("w,", ""),
             ("wƛ;,", ""), (":,,", ""), ("S,", ""), ("q,", "")]
 
@@ -378,6 +388,17 @@ def run_unit(unit):
                 bad = [b for b in containment_violations(got, text) if b[0] != "error-after-program-propagates" or True]
                 if rec[1]:
                     c["type_print_recorded"] = c.get("type_print_recorded", 0) + 1
+                # "everything it prints is collected": the record is what the same program prints offline
+                if not got["error"] and not rec[2]:
+                    off = run_online(text, [], flags, online=False, timeout=10)
+                    if not off["error"]:
+                        c["record_vs_offline_compared"] = c.get("record_vs_offline_compared", 0) + 1
+                        import re as _re
+
+                        norm = lambda t: _re.sub(r"_lambda_[0-9a-f]{32}", "_lambda_ID", t)  # noqa: E731 (random per transpilation)
+                        if norm(off["stdout"]) != norm(rec[1]):
+                            bad.append(("record-differs-from-offline-output",
+                                        f"online output record {rec[1][:120]!r}, the same program offline prints {off['stdout'][:120]!r}"))
                 for mech, what in bad:
                     add_violation(res, mech, f"program {text!r} flags={flags!r}: {what}",
                                   {"kind": "one", "mode": "taint", "text": text, "inputs": [], "flags": flags, "fault": None},
